@@ -53,7 +53,8 @@ fn gen_line(rng: &mut Rng) -> Vec<u8> {
         3 => b":".to_vec(),
         4 => b": value".to_vec(),
         5 => b"a:b:c:d".to_vec(),
-        6 => format!("X-Custom-{}:{}v{}", rng.below(3), PADS[rng.below(PADS.len())], rng.below(4)).into_bytes(),
+        // custom names are kept verbatim: the same name in another letter case is another entry
+        6 => format!("{}-{}:{}v{}", *rng.pick(&["X-Custom", "x-custom", "X-CUSTOM", "x-Custom"]), rng.below(3), PADS[rng.below(PADS.len())], rng.below(4)).into_bytes(),
         7 => format!(" Spaced Name {}: {} ", rng.below(2), rng.below(3)).into_bytes(),
         8 => "Content\u{2003}Length: 5".as_bytes().to_vec(),
         9 => "X-\u{e9}: \u{2003}caf\u{e9}\u{a0}".as_bytes().to_vec(),
